@@ -493,4 +493,400 @@ def childWF (off : Nat) : SChild → Bool
 
 def collWF (off : Nat) (c : SColl) : Bool := c.children.all (childWF off)
 
+/-- where a row of one transcript comes from: the transcript's span, one of its exon blocks, or one of its CDS
+    blocks paired with the frame the export uses -/
+def TxOrigin (cx : Ctx) (t : STx) (r : Row) : Prop :=
+  (r.type = .transcript ∧ r.start = firstStart t.exons - cx.off + 1 ∧ r.stop = lastEnd t.exons - cx.off ∧
+    r.strand = t.strand ∧ r.phase = .NONE) ∨
+  (r.type = .exon ∧ ∃ b ∈ t.exons, r.start = b.1 - cx.off + 1 ∧ r.stop = b.2 - cx.off ∧
+    r.strand = t.strand ∧ r.phase = .NONE) ∨
+  (r.type = .cds ∧ ∃ k, t.cds = some k ∧ ∃ bf ∈ k.blocks.zip (exportFrames cx t k),
+    r.start = bf.1.1 - cx.off + 1 ∧ r.stop = bf.1.2 - cx.off ∧ r.strand = t.strand ∧ r.phase = toPhase bf.2)
+
+theorem txRows_origin {cx : Ctx} {t : STx} {par : Str} {pq : Quals} {r : Row} (h : r ∈ txRows cx t par pq) :
+    TxOrigin cx t r := by
+  unfold txRows at h
+  simp only [List.mem_cons, List.mem_append, List.mem_map] at h
+  rcases h with (rfl | ⟨p, hp, rfl⟩) | hc
+  · exact Or.inl ⟨rfl, rfl, rfl, rfl, rfl⟩
+  · exact Or.inr (Or.inl ⟨rfl, p.2, (mem_enumFrom1 hp).1, rfl, rfl, rfl, rfl⟩)
+  · cases hk : t.cds with
+    | none => rw [hk] at hc; simp at hc
+    | some k =>
+      rw [hk] at hc
+      simp only [cdsRows, List.mem_map] at hc
+      obtain ⟨p, hp, rfl⟩ := hc
+      exact Or.inr (Or.inr ⟨rfl, k, hk, p.2, (mem_enumFrom1 hp).1, rfl, rfl, rfl, rfl⟩)
+
+def GeneOrigin (cx : Ctx) (g : SGene) (r : Row) : Prop :=
+  (r.type = .gene ∧ r.start = minNat (g.txs.map fun t => firstStart t.exons) - cx.off + 1 ∧
+    r.stop = maxNat (g.txs.map fun t => lastEnd t.exons) - cx.off ∧ r.strand = .plus ∧ r.phase = .NONE) ∨
+  ∃ t ∈ g.txs, TxOrigin cx t r
+
+theorem geneRows_origin {cx : Ctx} {g : SGene} {r : Row} (h : r ∈ geneRows cx g) : GeneOrigin cx g r := by
+  unfold geneRows at h
+  simp only [List.mem_cons, List.mem_flatMap] at h
+  rcases h with rfl | ⟨t, ht, hr⟩
+  · exact Or.inl ⟨rfl, rfl, rfl, rfl, rfl⟩
+  · exact Or.inr ⟨t, ht, txRows_origin hr⟩
+
+def FeatOrigin (cx : Ctx) (f : SFeat) (r : Row) : Prop :=
+  (r.type = .featureInterval ∧ r.start = firstStart f.blocks - cx.off + 1 ∧ r.stop = lastEnd f.blocks - cx.off ∧
+    r.strand = f.strand ∧ r.phase = .NONE) ∨
+  (r.type = .subregion ∧ ∃ b ∈ f.blocks, r.start = b.1 - cx.off + 1 ∧ r.stop = b.2 - cx.off ∧
+    r.strand = f.strand ∧ r.phase = .NONE)
+
+theorem featRows_origin {cx : Ctx} {f : SFeat} {par : Str} {pq : Quals} {r : Row} (h : r ∈ featRows cx f par pq) :
+    FeatOrigin cx f r := by
+  unfold featRows at h
+  simp only [List.mem_cons, List.mem_map] at h
+  rcases h with rfl | ⟨p, hp, rfl⟩
+  · exact Or.inl ⟨rfl, rfl, rfl, rfl, rfl⟩
+  · exact Or.inr ⟨rfl, p.2, (mem_enumFrom1 hp).1, rfl, rfl, rfl, rfl⟩
+
+def FcOrigin (cx : Ctx) (c : SFc) (r : Row) : Prop :=
+  (r.type = .featureCollection ∧ r.start = minNat (c.feats.map fun f => firstStart f.blocks) - cx.off + 1 ∧
+    r.stop = maxNat (c.feats.map fun f => lastEnd f.blocks) - cx.off ∧ r.strand = .plus ∧ r.phase = .NONE) ∨
+  ∃ f ∈ c.feats, FeatOrigin cx f r
+
+theorem fcRows_origin {cx : Ctx} {c : SFc} {r : Row} (h : r ∈ fcRows cx c) : FcOrigin cx c r := by
+  unfold fcRows at h
+  simp only [List.mem_cons, List.mem_flatMap] at h
+  rcases h with rfl | ⟨f, hf, hr⟩
+  · exact Or.inl ⟨rfl, rfl, rfl, rfl, rfl⟩
+  · exact Or.inr ⟨f, hf, featRows_origin hr⟩
+
+/-- T2 (source): every emitted row is the image `(start − off + 1, end − off)` of a source interval of the
+    collection: a gene / transcript / feature span or an exon / CDS / feature block -/
+def RowOrigin (cx : Ctx) (c : SColl) (r : Row) : Prop :=
+  (∃ g, SChild.gene g ∈ c.children ∧ GeneOrigin cx g r) ∨ (∃ f, SChild.fc f ∈ c.children ∧ FcOrigin cx f r)
+
+theorem mem_sortedChildren {c : SColl} {x : SChild} : x ∈ sortedChildren c ↔ x ∈ c.children := by
+  unfold sortedChildren; exact List.mem_mergeSort
+
+theorem mem_sortedRows {cx : Ctx} {c : SColl} {r : Row} : r ∈ sortedRows cx c ↔ r ∈ unsortedRows cx c := by
+  unfold sortedRows; exact List.mem_mergeSort
+
+theorem sortedRows_origin {cx : Ctx} {c : SColl} {r : Row} (h : r ∈ sortedRows cx c) : RowOrigin cx c r := by
+  rw [mem_sortedRows] at h
+  unfold unsortedRows at h
+  obtain ⟨x, hx, hr⟩ := List.mem_flatMap.mp h
+  rw [mem_sortedChildren] at hx
+  cases x with
+  | gene g => exact Or.inl ⟨g, hx, geneRows_origin hr⟩
+  | fc f => exact Or.inr ⟨f, hx, fcRows_origin hr⟩
+
+/-! frames used by the export are never NONE on a well-formed CDS -/
+
+theorem frameOfMod_ne_none (v : Int) : frameOfMod v ≠ .NONE := by
+  unfold frameOfMod
+  split
+  · simp
+  · split <;> simp
+
+theorem framesFrom_ne_none (cur : CDSFrame) (hc : cur ≠ .NONE) (l : List Int) :
+    ∀ f ∈ framesFrom cur l, f ≠ .NONE := by
+  induction l generalizing cur with
+  | nil => intro f hf; simp [framesFrom] at hf
+  | cons s rest ih =>
+    intro f hf
+    simp only [framesFrom, List.mem_cons] at hf
+    have hn : shiftFrame cur s ≠ .NONE := by
+      unfold shiftFrame
+      cases cur <;> first | exact absurd rfl hc | exact frameOfMod_ne_none _
+    rcases hf with rfl | hf
+    · exact hn
+    · exact ih _ hn f hf
+
+theorem constructFrames_ne_none (bs : List Blk) (st : Strand) (sf : CDSFrame) (h : sf ≠ .NONE) :
+    ∀ f ∈ constructFrames bs st sf, f ≠ .NONE := by
+  intro f hf
+  unfold constructFrames at hf
+  split at hf
+  · simp only [List.mem_singleton] at hf; subst hf; exact h
+  · simp only at hf
+    have key : ∀ l : List Int, ∀ f ∈ sf :: framesFrom .ZERO l, f ≠ .NONE := by
+      intro l f hf
+      rcases List.mem_cons.mp hf with rfl | hf
+      · exact h
+      · exact framesFrom_ne_none .ZERO (by simp) l f hf
+    split at hf
+    · exact key _ f (List.mem_reverse.mp hf)
+    · exact key _ f hf
+
+theorem exportFrames_ne_none {cx : Ctx} {t : STx} {k : SCds} (h : k.frames.all (· != .NONE) = true) :
+    ∀ f ∈ exportFrames cx t k, f ≠ .NONE := by
+  have hall : ∀ f ∈ k.frames, f ≠ .NONE := by
+    intro f hf
+    have := List.all_eq_true.mp h f hf
+    simpa using this
+  intro f hf
+  unfold exportFrames at hf
+  split at hf
+  · cases h5 : fivePrimeFrame k.frames t.strand with
+    | none => rw [h5] at hf; simp at hf
+    | some sf =>
+      rw [h5] at hf
+      have hsf : sf ∈ k.frames := by
+        unfold fivePrimeFrame at h5
+        split at h5
+        · exact List.mem_of_getLast? h5
+        · exact List.mem_of_head? h5
+      exact constructFrames_ne_none _ _ sf (hall sf hsf) f hf
+  · exact hall f hf
+
+theorem txWF_parts {off : Nat} {t : STx} (h : txWF off t = true) :
+    t.exons ≠ [] ∧ goodBlocks t.exons = true ∧ off ≤ firstStart t.exons ∧
+    (∀ k, t.cds = some k → cdsWF t k = true) := by
+  unfold txWF at h
+  simp only [Bool.and_eq_true, Bool.not_eq_true', decide_eq_true_eq] at h
+  refine ⟨?_, h.1.1.2, h.1.2, ?_⟩
+  · intro e; rw [e] at h; simp at h
+  · intro k hk; rw [hk] at h; exact h.2
+
+theorem tx_row_facts {cx : Ctx} {t : STx} {r : Row} (hwf : txWF cx.off t = true) (ho : TxOrigin cx t r) :
+    1 ≤ r.start ∧ r.start ≤ r.stop ∧ firstStart t.exons - cx.off + 1 ≤ r.start ∧ (r.phase = .NONE ↔ r.type ≠ .cds) := by
+  obtain ⟨hne, hgood, hoff, hcds⟩ := txWF_parts hwf
+  have hspan := goodBlocks_span hgood hne
+  rcases ho with ⟨hty, hs, he, _, hp⟩ | ⟨hty, b, hb, hs, he, _, hp⟩ | ⟨hty, k, hk, bf, hbf, hs, he, _, hp⟩
+  · refine ⟨by omega, by omega, by omega, ?_⟩
+    rw [hty, hp]; simp
+  · have := goodBlocks_bounds hgood b hb
+    refine ⟨by omega, by omega, by omega, ?_⟩
+    rw [hty, hp]; simp
+  · have hk' := hcds k hk
+    unfold cdsWF at hk'
+    simp only [Bool.and_eq_true, List.all_eq_true, decide_eq_true_eq, beq_iff_eq] at hk'
+    obtain ⟨⟨⟨hkg, hkin⟩, _⟩, hfr⟩ := hk'
+    have hmem := List.of_mem_zip hbf
+    have h1 := goodBlocks_bounds hkg bf.1 hmem.1
+    have h2 := hkin bf.1 hmem.1
+    have hfn : bf.2 ≠ .NONE := exportFrames_ne_none (List.all_eq_true.mpr hfr) bf.2 hmem.2
+    refine ⟨by omega, by omega, by omega, ?_⟩
+    rw [hty, hp]
+    constructor
+    · intro h; exact absurd ((toPhase_none_iff _).mp h) hfn
+    · intro h; exact absurd rfl h
+
+theorem gene_row_facts {cx : Ctx} {g : SGene} {r : Row} (hwf : geneWF cx.off g = true) (ho : GeneOrigin cx g r) :
+    1 ≤ r.start ∧ r.start ≤ r.stop ∧
+    minNat (g.txs.map fun t => firstStart t.exons) - cx.off + 1 ≤ r.start ∧ (r.phase = .NONE ↔ r.type ≠ .cds) := by
+  unfold geneWF at hwf
+  simp only [Bool.and_eq_true, Bool.not_eq_true', List.all_eq_true] at hwf
+  obtain ⟨hne, hall⟩ := hwf
+  rcases ho with ⟨hty, hs, he, _, hp⟩ | ⟨t, ht, hto⟩
+  · have hne' : (g.txs.map fun t => firstStart t.exons) ≠ [] := by
+      intro e
+      have : g.txs = [] := by simpa using e
+      rw [this] at hne; simp at hne
+    obtain ⟨t0, ht0, hmin⟩ := List.mem_map.mp (minNat_mem hne')
+    obtain ⟨hne0, hgood0, hoff0, _⟩ := txWF_parts (hall t0 ht0)
+    have hspan := goodBlocks_span hgood0 hne0
+    have hmax : lastEnd t0.exons ≤ maxNat (g.txs.map fun t => lastEnd t.exons) :=
+      le_maxNat (List.mem_map.mpr ⟨t0, ht0, rfl⟩)
+    refine ⟨by omega, by omega, by omega, ?_⟩
+    rw [hty, hp]; simp
+  · have := tx_row_facts (hall t ht) hto
+    have hmin : minNat (g.txs.map fun t => firstStart t.exons) ≤ firstStart t.exons :=
+      minNat_le (List.mem_map.mpr ⟨t, ht, rfl⟩)
+    exact ⟨this.1, this.2.1, by omega, this.2.2.2⟩
+
+theorem feat_row_facts {cx : Ctx} {f : SFeat} {r : Row} (hwf : featWF cx.off f = true) (ho : FeatOrigin cx f r) :
+    1 ≤ r.start ∧ r.start ≤ r.stop ∧ firstStart f.blocks - cx.off + 1 ≤ r.start ∧ (r.phase = .NONE ↔ r.type ≠ .cds) := by
+  unfold featWF at hwf
+  simp only [Bool.and_eq_true, Bool.not_eq_true', decide_eq_true_eq] at hwf
+  obtain ⟨⟨hne, hgood⟩, hoff⟩ := hwf
+  have hne' : f.blocks ≠ [] := by intro e; rw [e] at hne; simp at hne
+  have hspan := goodBlocks_span hgood hne'
+  rcases ho with ⟨hty, hs, he, _, hp⟩ | ⟨hty, b, hb, hs, he, _, hp⟩
+  · refine ⟨by omega, by omega, by omega, ?_⟩
+    rw [hty, hp]; simp
+  · have := goodBlocks_bounds hgood b hb
+    refine ⟨by omega, by omega, by omega, ?_⟩
+    rw [hty, hp]; simp
+
+theorem fc_row_facts {cx : Ctx} {c : SFc} {r : Row} (hwf : fcWF cx.off c = true) (ho : FcOrigin cx c r) :
+    1 ≤ r.start ∧ r.start ≤ r.stop ∧
+    minNat (c.feats.map fun f => firstStart f.blocks) - cx.off + 1 ≤ r.start ∧ (r.phase = .NONE ↔ r.type ≠ .cds) := by
+  unfold fcWF at hwf
+  simp only [Bool.and_eq_true, Bool.not_eq_true', List.all_eq_true] at hwf
+  obtain ⟨hne, hall⟩ := hwf
+  rcases ho with ⟨hty, hs, he, _, hp⟩ | ⟨f, hf, hfo⟩
+  · have hne' : (c.feats.map fun f => firstStart f.blocks) ≠ [] := by
+      intro e
+      have : c.feats = [] := by simpa using e
+      rw [this] at hne; simp at hne
+    obtain ⟨f0, hf0, hmin⟩ := List.mem_map.mp (minNat_mem hne')
+    have hw0 := hall f0 hf0
+    unfold featWF at hw0
+    simp only [Bool.and_eq_true, Bool.not_eq_true', decide_eq_true_eq] at hw0
+    obtain ⟨⟨hne0, hgood0⟩, hoff0⟩ := hw0
+    have hne0' : f0.blocks ≠ [] := by intro e; rw [e] at hne0; simp at hne0
+    have hspan := goodBlocks_span hgood0 hne0'
+    have hmax : lastEnd f0.blocks ≤ maxNat (c.feats.map fun f => lastEnd f.blocks) :=
+      le_maxNat (List.mem_map.mpr ⟨f0, hf0, rfl⟩)
+    refine ⟨by omega, by omega, by omega, ?_⟩
+    rw [hty, hp]; simp
+  · have := feat_row_facts (hall f hf) hfo
+    have hmin : minNat (c.feats.map fun f => firstStart f.blocks) ≤ firstStart f.blocks :=
+      minNat_le (List.mem_map.mpr ⟨f, hf, rfl⟩)
+    exact ⟨this.1, this.2.1, by omega, this.2.2.2⟩
+
+/-- T2 (numbers): on a well-formed collection every emitted row has `1 ≤ start ≤ end`, and a phase exactly when it
+    is a CDS row -/
+theorem sortedRows_facts {cx : Ctx} {c : SColl} (hwf : collWF cx.off c = true) {r : Row} (h : r ∈ sortedRows cx c) :
+    1 ≤ r.start ∧ r.start ≤ r.stop ∧ (r.phase = .NONE ↔ r.type ≠ .cds) := by
+  unfold collWF at hwf
+  have hall := List.all_eq_true.mp hwf
+  rcases sortedRows_origin h with ⟨g, hg, ho⟩ | ⟨f, hf, ho⟩
+  · have := gene_row_facts (hall _ hg) ho
+    exact ⟨this.1, this.2.1, this.2.2.2⟩
+  · have := fc_row_facts (hall _ hf) ho
+    exact ⟨this.1, this.2.1, this.2.2.2⟩
+
+/-! ### E. every Parent is the ID of an earlier row; rows ordered by start -/
+
+theorem sublist_flatMap_of_mem {α β} {f : α → List β} {l : List α} {x : α} (h : x ∈ l) :
+    (f x).Sublist (l.flatMap f) := by
+  rw [List.flatMap_def]
+  exact List.sublist_flatten_of_mem (List.mem_map_of_mem h)
+
+theorem pair_sublist_cons {α} {a x : α} {l : List α} (h : x ∈ l) : [a, x].Sublist (a :: l) :=
+  List.Sublist.cons_cons a (List.singleton_sublist.mpr h)
+
+/-- the rows of one transcript: a head row (ID = the transcript GUID, Parent = the gene) followed by rows whose
+    Parent is the transcript GUID and whose start is not before the head's -/
+theorem txRows_shape (cx : Ctx) (t : STx) (par : Str) (pq : Quals) :
+    ∃ hd rest, txRows cx t par pq = hd :: rest ∧ hd.attrs.id = t.guid ∧ hd.attrs.parent = some par ∧
+      hd.start = firstStart t.exons - cx.off + 1 ∧
+      ∀ r ∈ rest, r.attrs.parent = some t.guid ∧ (txWF cx.off t = true → hd.start ≤ r.start) := by
+  refine ⟨_, _, rfl, rfl, rfl, rfl, ?_⟩
+  intro r hr
+  have hmem : r ∈ txRows cx t par pq := List.mem_cons_of_mem _ hr
+  refine ⟨?_, ?_⟩
+  · rcases List.mem_append.mp hr with he | hc
+    · obtain ⟨p, _, rfl⟩ := List.mem_map.mp he
+      rfl
+    · cases hk : t.cds with
+      | none => rw [hk] at hc; simp at hc
+      | some k =>
+        rw [hk] at hc
+        simp only [cdsRows, List.mem_map] at hc
+        obtain ⟨p, _, rfl⟩ := hc
+        rfl
+  · intro hwf
+    exact (tx_row_facts hwf (txRows_origin hmem)).2.2.1
+
+theorem featRows_shape (cx : Ctx) (f : SFeat) (par : Str) (pq : Quals) :
+    ∃ hd rest, featRows cx f par pq = hd :: rest ∧ hd.attrs.id = f.guid ∧ hd.attrs.parent = some par ∧
+      hd.start = firstStart f.blocks - cx.off + 1 ∧
+      ∀ r ∈ rest, r.attrs.parent = some f.guid ∧ (featWF cx.off f = true → hd.start ≤ r.start) := by
+  refine ⟨_, _, rfl, rfl, rfl, rfl, ?_⟩
+  intro r hr
+  have hmem : r ∈ featRows cx f par pq := List.mem_cons_of_mem _ hr
+  refine ⟨?_, ?_⟩
+  · obtain ⟨p, _, rfl⟩ := List.mem_map.mp hr; rfl
+  · intro hwf
+    exact (feat_row_facts hwf (featRows_origin hmem)).2.2.1
+
+theorem geneRows_parent {cx : Ctx} {g : SGene} (hwf : geneWF cx.off g = true) :
+    ∀ r ∈ geneRows cx g, ∀ p, r.attrs.parent = some p →
+      ∃ q, [q, r].Sublist (geneRows cx g) ∧ q.attrs.id = p ∧ q.start ≤ r.start := by
+  intro r hr p hp
+  have hwf' := hwf
+  unfold geneWF at hwf'
+  simp only [Bool.and_eq_true, List.all_eq_true] at hwf'
+  unfold geneRows at hr ⊢
+  simp only at hr ⊢
+  rcases List.mem_cons.mp hr with rfl | hr'
+  · simp at hp
+  · obtain ⟨t, ht, hrt⟩ := List.mem_flatMap.mp hr'
+    obtain ⟨hd, rest, hshape, hid, hpar, hstart, hrest⟩ := txRows_shape cx t g.guid (geneExportQuals g)
+    rw [hshape] at hrt
+    have hsub : (hd :: rest).Sublist (g.txs.flatMap fun t => txRows cx t g.guid (geneExportQuals g)) := by
+      rw [← hshape]; exact sublist_flatMap_of_mem (f := fun t => txRows cx t g.guid (geneExportQuals g)) ht
+    rcases List.mem_cons.mp hrt with rfl | hin
+    · -- the transcript row: its parent is the gene row
+      rw [hpar] at hp
+      simp only [Option.some.injEq] at hp
+      refine ⟨_, pair_sublist_cons hr', hp, ?_⟩
+      rw [hstart]
+      have : minNat (g.txs.map fun t => firstStart t.exons) ≤ firstStart t.exons :=
+        minNat_le (List.mem_map.mpr ⟨t, ht, rfl⟩)
+      simp only; omega
+    · -- an exon / CDS row: its parent is the transcript row
+      have := hrest r hin
+      rw [this.1] at hp
+      simp only [Option.some.injEq] at hp
+      refine ⟨hd, ?_, by rw [hid]; exact hp, this.2 (hwf'.2 t ht)⟩
+      exact List.Sublist.cons _ ((pair_sublist_cons hin).trans hsub)
+
+theorem fcRows_parent {cx : Ctx} {c : SFc} (hwf : fcWF cx.off c = true) :
+    ∀ r ∈ fcRows cx c, ∀ p, r.attrs.parent = some p →
+      ∃ q, [q, r].Sublist (fcRows cx c) ∧ q.attrs.id = p ∧ q.start ≤ r.start := by
+  intro r hr p hp
+  have hwf' := hwf
+  unfold fcWF at hwf'
+  simp only [Bool.and_eq_true, List.all_eq_true] at hwf'
+  unfold fcRows at hr ⊢
+  simp only at hr ⊢
+  rcases List.mem_cons.mp hr with rfl | hr'
+  · simp at hp
+  · obtain ⟨f, hf, hrf⟩ := List.mem_flatMap.mp hr'
+    obtain ⟨hd, rest, hshape, hid, hpar, hstart, hrest⟩ := featRows_shape cx f c.guid (fcExportQuals c)
+    rw [hshape] at hrf
+    have hsub : (hd :: rest).Sublist (c.feats.flatMap fun f => featRows cx f c.guid (fcExportQuals c)) := by
+      rw [← hshape]; exact sublist_flatMap_of_mem (f := fun f => featRows cx f c.guid (fcExportQuals c)) hf
+    rcases List.mem_cons.mp hrf with rfl | hin
+    · rw [hpar] at hp
+      simp only [Option.some.injEq] at hp
+      refine ⟨_, pair_sublist_cons hr', hp, ?_⟩
+      rw [hstart]
+      have : minNat (c.feats.map fun f => firstStart f.blocks) ≤ firstStart f.blocks :=
+        minNat_le (List.mem_map.mpr ⟨f, hf, rfl⟩)
+      simp only; omega
+    · have := hrest r hin
+      rw [this.1] at hp
+      simp only [Option.some.injEq] at hp
+      refine ⟨hd, ?_, by rw [hid]; exact hp, this.2 (hwf'.2 f hf)⟩
+      exact List.Sublist.cons _ ((pair_sublist_cons hin).trans hsub)
+
+theorem rowLe_trans : ∀ a b c : Row, rowLe a b = true → rowLe b c = true → rowLe a c = true := by
+  intro a b c h1 h2
+  simp only [rowLe, decide_eq_true_eq] at *
+  omega
+
+theorem rowLe_total : ∀ a b : Row, (rowLe a b || rowLe b a) = true := by
+  intro a b
+  simp only [rowLe, Bool.or_eq_true, decide_eq_true_eq]
+  omega
+
+/-- T3: in the sorted output the row named by a `Parent` comes EARLIER (stability of the sort + parent.start ≤
+    child.start) -/
+theorem sortedRows_parent {cx : Ctx} {c : SColl} (hwf : collWF cx.off c = true) :
+    ∀ r ∈ sortedRows cx c, ∀ p, r.attrs.parent = some p →
+      ∃ q, [q, r].Sublist (sortedRows cx c) ∧ q.attrs.id = p := by
+  intro r hr p hp
+  rw [mem_sortedRows] at hr
+  have hall := List.all_eq_true.mp (by unfold collWF at hwf; exact hwf)
+  unfold unsortedRows at hr
+  obtain ⟨x, hx, hrx⟩ := List.mem_flatMap.mp hr
+  have hxc : x ∈ c.children := mem_sortedChildren.mp hx
+  have hsub : (childRows cx x).Sublist (unsortedRows cx c) := sublist_flatMap_of_mem hx
+  have key : ∃ q, [q, r].Sublist (childRows cx x) ∧ q.attrs.id = p ∧ q.start ≤ r.start := by
+    cases x with
+    | gene g => exact geneRows_parent (hall _ hxc) r hrx p hp
+    | fc f => exact fcRows_parent (hall _ hxc) r hrx p hp
+  obtain ⟨q, hq, hid, hle⟩ := key
+  refine ⟨q, ?_, hid⟩
+  unfold sortedRows
+  exact List.pair_sublist_mergeSort rowLe_trans rowLe_total (by simp [rowLe, hle]) (hq.trans hsub)
+
+/-- T3: rows are ordered by start -/
+theorem sortedRows_sorted (cx : Ctx) (c : SColl) :
+    (sortedRows cx c).Pairwise (fun a b => a.start ≤ b.start) := by
+  have := List.pairwise_mergeSort rowLe_trans rowLe_total (unsortedRows cx c)
+  unfold sortedRows
+  exact this.imp (by intro a b h; simpa [rowLe] using h)
+
 end BioCantor.Proofs.GffRows
